@@ -14,6 +14,7 @@ import JunoModel.C01.ProofsStateL
 import JunoModel.C01.ProofsChain
 import JunoModel.C01.ProofsMigrate
 import JunoModel.C01.ProofsLegacyState
+import JunoModel.C01.ProofsEnc
 /-!
 C01 — property theorems (statements only; helper lemmas are in `Proofs*.lean`).
 Every theorem in this module is an obligation listed in evidence/C01.json with its axioms.
@@ -807,6 +808,133 @@ example : Legacy.runL 2 .pedersen [.put [true, false] (.felt 3), .reopen, .put [
 /-- non-vacuity: insert, hash, overwrite, delete collapsing a binary node, delete to empty -/
 example : Legacy.runOps 2 .pedersen [.put [true, false] (.felt 3), .hash, .put [true, true] (.felt 4),
     .put [true, false] (.felt 9), .put [true, true] (.felt 0)] = some (.add (.h .pedersen (.felt 9) (.felt 2)) 2) := by
+  decide
+
+/-! ## The byte level of what is persisted (round 6)
+
+`ModelEnc.lean` transcribes the encoders / decoders between the values the models above talk about and the bytes in
+the database: the contract record (`stateContract.MarshalBinary / UnmarshalBinary`, `state.WriteContract`), the trie2
+node blobs (`trienode.EncodeNode / DecodeNode`) with the path encoding of `trieutils.BitArray` (also the suffix of
+every node key), and the legacy trie's node and key bytes (`trie.Node.WriteTo / UnmarshalBinary`, `trie.BitArray`).
+Felts are numbers below the field prime `Enc.P` (`felt.SetBytes` reduces modulo it), bytes are numbers. "A restart
+reads back what was written" at this level: every decoder inverts its encoder on everything the encoder is given. -/
+
+/-- **A contract record survives the database**: what `MarshalBinary` writes, `UnmarshalBinary` reads back — class
+hash, nonce, cached storage root, deployment height — for canonical felts and a 64-bit height. -/
+theorem contract_record_bytes_roundtrip (r : Enc.Rec) (hn : r.nonce < Enc.P) (hc : r.cls < Enc.P)
+    (hs : r.sroot < Enc.P) (hh : r.height < 2 ^ 64) : Enc.decodeRec (Enc.encodeRec r) = some r :=
+  Enc.decodeRec_encodeRec r hn hc hs hh
+
+/-- The form is chosen by the cached root alone: 72 bytes iff it is zero, else 104. -/
+theorem contract_record_form (r : Enc.Rec) : (Enc.encodeRec r).length = if r.sroot = 0 then 72 else 104 :=
+  Enc.encodeRec_length r
+
+/-- **A record in the short form reads with a ZERO storage root** — whatever storage the contract has. This is the
+form `state.WriteContract` (the head-state migration) writes for every contract: the byte-level fact behind
+`state_commitment_spec_after_head_state_migration` (the cached root of a migrated record says nothing). -/
+theorem contract_record_short_form_reads_zero_root (bs : List Nat) (r : Enc.Rec) (h : Enc.decodeRec bs = some r)
+    (hl : bs.length = 72) : r.sroot = 0 :=
+  Enc.decodeRec_rootless h hl
+
+theorem migrator_record_has_no_storage_root (nonce cls height : Nat) (hn : nonce < Enc.P) (hc : cls < Enc.P)
+    (hh : height < 2 ^ 64) :
+    (Enc.writeContractRec nonce cls height).length = 72 ∧
+    Enc.decodeRec (Enc.writeContractRec nonce cls height) = some ⟨nonce, cls, 0, height⟩ := by
+  refine ⟨by simp [Enc.writeContractRec, Enc.encodeRec_length], ?_⟩
+  exact Enc.decodeRec_encodeRec ⟨nonce, cls, 0, height⟩ hn hc (show 0 < Enc.P by decide) hh
+
+/-- error path: every other length is rejected (and only those) -/
+theorem contract_record_rejects_other_lengths (bs : List Nat) :
+    Enc.decodeRec bs = none ↔ (bs.length ≠ 104 ∧ bs.length ≠ 72) :=
+  Enc.decodeRec_none_iff bs
+
+/-- **trie2 paths** (node keys, edge paths): `UnmarshalBinary ∘ Write = id`, for every path length. -/
+theorem trie2_path_bytes_roundtrip (p : Path) : Enc.decodePath (Enc.encodePath p) = some p :=
+  Enc.decodePath_encodePath p
+
+/-- **A trie2 node survives the database.** For every node the collector writes (`BlobN.WF`: canonical felts, edge
+path of at most 251 bits), stored at depth `pathLen` of a trie of height `maxLen` (a binary node above the last
+level; an edge with an empty path — never written — not AT full depth, where `DecodeNode` panics:
+`Enc.DecErr.childType`), `DecodeNode (EncodeNode n) = n`. -/
+theorem trie2_node_bytes_roundtrip (b : Enc.BlobN) (hw : b.WF) (pathLen maxLen : Nat)
+    (hp : match b with
+      | .leaf _ => pathLen ≤ maxLen
+      | .bin _ _ => pathLen + 1 ≤ maxLen
+      | .edge _ p => pathLen ≤ maxLen ∧ (p = [] → pathLen < maxLen)) :
+    Enc.decodeBlob (Enc.encodeBlob b) pathLen maxLen = .ok b :=
+  Enc.decodeBlob_encodeBlob b hw pathLen maxLen hp
+
+/-- two different nodes never have the same bytes -/
+theorem trie2_node_bytes_injective (a b : Enc.BlobN) (ha : a.WF) (hb : b.WF)
+    (h : Enc.encodeBlob a = Enc.encodeBlob b) : a = b :=
+  Enc.encodeBlob_injective a b ha hb h
+
+/-- `DecodeNode` tells a value / hash node from an inner node by the LENGTH of the blob (32 bytes) before it looks at
+the type byte: sound, because no inner node is ever 32 bytes long. -/
+theorem trie2_inner_node_never_32_bytes (b : Enc.BlobN) (h : (Enc.encodeBlob b).length = 32) : ∃ v, b = .leaf v :=
+  Enc.encodeBlob_inner_not_32 b h
+
+/-- **Database keys of trie2 nodes** (`trieutils.nodeKeyByPath`): within a bucket, the key determines the owner (the
+contract whose storage trie the node belongs to), the leaf flag and the path — two nodes never share a key. -/
+theorem trie2_node_key_injective (bucket o o' : Nat) (l l' : Bool) (p p' : Path) (ho : o ≠ 0) (ho' : o' ≠ 0)
+    (hP : o < Enc.P) (hP' : o' < Enc.P) (h : Enc.nodeKey bucket o l p = Enc.nodeKey bucket o' l' p') :
+    o = o' ∧ l = l' ∧ p = p' :=
+  Enc.nodeKey_injective bucket o o' l l' p p' ho ho' hP hP' h
+
+theorem trie2_node_key_injective_no_owner (bucket : Nat) (l l' : Bool) (p p' : Path)
+    (h : Enc.nodeKey bucket 0 l p = Enc.nodeKey bucket 0 l' p') : l = l' ∧ p = p' :=
+  Enc.nodeKey_injective_no_owner bucket l l' p p' h
+
+/-- **The range delete of a purged contract's storage nodes** (`DeleteStorageNodesByPath`, run by `flush` for an
+emptied system contract and by `Revert`) covers every node key of that contract and no node key of any other
+contract: purging one contract cannot change another contract's storage root. -/
+theorem purge_range_covers_exactly_the_contract (bucket o o' : Nat) (l : Bool) (p : Path) (ho : o ≠ 0) (ho' : o' ≠ 0)
+    (hP : o < Enc.P) (hP' : o' < Enc.P) :
+    Enc.storagePrefix bucket o <+: Enc.nodeKey bucket o l p ∧
+    (o ≠ o' → ¬ Enc.storagePrefix bucket o <+: Enc.nodeKey bucket o' l p) :=
+  ⟨Enc.storagePrefix_prefix bucket o l p ho, Enc.storagePrefix_other bucket o o' l p ho' hP hP'⟩
+
+/-- non-vacuity: the key of the root node of contract 0xabc's storage trie, of a leaf of the contract trie -/
+example : Enc.nodeKey 5 0xabc false [] = 5 :: (List.replicate 30 0 ++ [0x0a, 0xbc] ++ [1, 0]) ∧
+    Enc.nodeKey 4 0 true [true, false, true] = [4, 2, 5, 3] := by
+  decide
+
+/-- **Legacy trie**: keys (`BitArray.Write`, length first) and nodes (`Node.WriteTo`: value, child keys of an inner
+node, child hashes of a proof node) are read back as written; a key is followed by arbitrary further bytes. -/
+theorem legacy_path_bytes_roundtrip (p : Path) (rest : List Nat) :
+    Enc.decodePathL (Enc.encodePathL p ++ rest) = some (p, rest) :=
+  Enc.decodePathL_encodePathL p rest
+
+theorem legacy_node_bytes_roundtrip (n : Enc.LNodeB) (hw : n.WF) : Enc.decodeLNode (Enc.encodeLNode n) = .ok n :=
+  Enc.decodeLNode_encodeLNode n hw
+
+/-- non-vacuity: a record with and without cached root; the migrator's record; a damaged record -/
+example : Enc.decodeRec (Enc.encodeRec ⟨5, 0xc1a55, 0, 3⟩) = some ⟨5, 0xc1a55, 0, 3⟩ ∧
+    Enc.decodeRec (Enc.encodeRec ⟨Enc.P - 1, 2 ^ 251, 7, 2 ^ 64 - 1⟩) = some ⟨Enc.P - 1, 2 ^ 251, 7, 2 ^ 64 - 1⟩ ∧
+    (Enc.encodeRec ⟨5, 0xc1a55, 0, 3⟩).length = 72 ∧ (Enc.encodeRec ⟨5, 0xc1a55, 7, 3⟩).length = 104 ∧
+    Enc.decodeRec ((Enc.encodeRec ⟨5, 0xc1a55, 7, 3⟩).dropLast) = none := by
+  decide
+
+set_option maxRecDepth 8000 in
+/-- non-vacuity: a leaf at full depth, a binary node, an edge reaching the leaves with a 251-bit path (66 bytes),
+an edge with a 9-bit path (two value bytes); the panic of `DecodeNode` on an empty-path edge at full depth; a blob
+with an unknown type byte -/
+example : Enc.decodeBlob (Enc.encodeBlob (.leaf 9)) 251 251 = .ok (.leaf 9) ∧
+    Enc.decodeBlob (Enc.encodeBlob (.bin 3 (Enc.P - 1))) 250 251 = .ok (.bin 3 (Enc.P - 1)) ∧
+    Enc.decodeBlob (Enc.encodeBlob (.edge 7 (List.replicate 251 true))) 0 251 = .ok (.edge 7 (List.replicate 251 true)) ∧
+    (Enc.encodeBlob (.edge 7 (List.replicate 251 true))).length = 66 ∧
+    Enc.encodeBlob (.edge 7 [true, false, false, false, false, false, false, false, true]) =
+      2 :: (List.replicate 31 0 ++ [7] ++ [1, 1, 9]) ∧
+    Enc.decodeBlob (Enc.encodeBlob (.edge 7 [])) 251 251 = .error .childType ∧
+    Enc.decodeBlob (3 :: List.replicate 64 0) 0 251 = .error .unknownType := by
+  decide
+
+/-- non-vacuity: legacy leaf, inner node (children at depths 2 and 9), proof node -/
+example : Enc.decodeLNode (Enc.encodeLNode ⟨9, none, none⟩) = .ok ⟨9, none, none⟩ ∧
+    Enc.decodeLNode (Enc.encodeLNode ⟨9, some ([false, true], List.replicate 9 true), none⟩) =
+      .ok ⟨9, some ([false, true], List.replicate 9 true), none⟩ ∧
+    Enc.decodeLNode (Enc.encodeLNode ⟨9, some ([false], [true]), some (4, 5)⟩) = .ok ⟨9, some ([false], [true]), some (4, 5)⟩ ∧
+    Enc.decodeLNode (List.replicate 31 0) = .error .short := by
   decide
 
 end Juno.C01.Props
